@@ -10,6 +10,8 @@ import CxxModel.Parser.Decl
 import CxxModel.ToJ
 import CxxModel.PPFilter
 import CxxModel.ReprRender
+import CxxModel.TokFmt
+import CxxModel.Format
 import CxxModel.Gen.Schema
 import CxxModel.Gen.LexRules
 open Lean
@@ -206,6 +208,76 @@ def opRepr (j : Json) : Json :=
   let v := toPyVal 200 ((j.getObjVal? "value").toOption.getD Json.null)
   Json.mkObj [("repr", Json.str (nondefaultRepr Gen.schema v).render), ("conforms", Json.bool (Conforms Gen.schema v))]
 
+def opTokFmt (j : Json) : Json :=
+  let toks : List Token := (getArr j "toks").toList.map (fun p => match p with
+    | .arr #[.str v, .str t] => { value := v, type := t }
+    | _ => { value := "?", type := "?" })
+  Json.mkObj [("s", Json.str (tokfmt toks))]
+
+/-! decoding of the harness's dataclass JSON (`to_json`) back into model types (fuel = depth) -/
+
+def jOptStr (j : Json) (k : String) : Option String :=
+  match j.getObjVal? k with
+  | .ok (.str s) => some s
+  | _ => none
+
+def jField (j : Json) (k : String) : Json := (j.getObjVal? k).toOption.getD Json.null
+def jCls (j : Json) : String := getStr j "_"
+def jTokens (j : Json) : List Token :=
+  (getArr j "tokens").toList.map (fun t => { value := getStr t "value", type := getStr t "type" })
+def jValue? (j : Json) : Option Value := match j with | .null => none | _ => some { tokens := jTokens j }
+
+mutual
+  def jToDType : Nat → Json → DType
+    | 0, _ => default
+    | f + 1, j =>
+      match jCls j with
+      | "Type" => .type (jToPQName f (jField j "typename")) (getBool j "const" false) (getBool j "volatile" false)
+      | "Pointer" => .ptr (jToDType f (jField j "ptr_to")) (getBool j "const" false) (getBool j "volatile" false)
+      | "Reference" => .ref (jToDType f (jField j "ref_to"))
+      | "MoveReference" => .mref (jToDType f (jField j "moveref_to"))
+      | "Array" => .array (jToDType f (jField j "array_of")) (jValue? (jField j "size"))
+      | "FunctionType" =>
+        .fn (jToDType f (jField j "return_type")) ((getArr j "parameters").toList.map (jToParam f))
+          (getBool j "vararg" false) (getBool j "has_trailing_return" false) (jValue? (jField j "noexcept"))
+          (jOptStr j "msvc_convention")
+      | _ => default
+  def jToParam : Nat → Json → Param
+    | 0, _ => default
+    | f + 1, j => .mk (jToDType f (jField j "type")) (jOptStr j "name") (jValue? (jField j "default")) (getBool j "param_pack" false)
+  def jToPQName : Nat → Json → PQName
+    | 0, _ => default
+    | f + 1, j => .mk ((getArr j "segments").toList.map (jToSeg f)) (jOptStr j "classkey") (getBool j "has_typename" false)
+  def jToSeg : Nat → Json → PQSeg
+    | 0, _ => default
+    | f + 1, j =>
+      match jCls j with
+      | "AnonymousName" => .anon (getNat j "id")
+      | "FundamentalSpecifier" => .fund (getStr j "name")
+      | "NameSpecifier" =>
+        .name (getStr j "name") (match jField j "specialization" with
+          | .null => none
+          | sj => some (.mk ((getArr sj "args").toList.map (jToTArg f))))
+      | "DecltypeSpecifier" => .decltype (jTokens j)
+      | _ => .auto
+  def jToTArg : Nat → Json → TemplateArg
+    | 0, _ => .val { tokens := [] } false
+    | f + 1, j =>
+      let a := jField j "arg"
+      if jCls a = "Value" then .val { tokens := jTokens a } (getBool j "param_pack" false)
+      else .ty (jToDType f a) (getBool j "param_pack" false)
+end
+
+def opFormat (j : Json) : Json :=
+  let tj := jField j "type"
+  let name := getStr j "name"
+  match getStr j "what" with
+  | "param" => Json.mkObj [("format", Json.str (fmtParam (jToParam 100 tj)))]
+  | "pqname" => Json.mkObj [("format", Json.str (fmtPQName (jToPQName 100 tj)))]
+  | _ =>
+    let t := jToDType 100 tj
+    Json.mkObj [("format", Json.str (fmtType t)), ("format_decl", Json.str (fmtDecl t name))]
+
 /-- fold of an event stream given by a parse (for the fold correspondence): the model's own
     events are folded; the harness compares with the implementation's `SimpleCxxVisitor` -/
 def handle (j : Json) : Json :=
@@ -217,6 +289,8 @@ def handle (j : Json) : Json :=
   | "simple" => opSimple j
   | "ppfilter" => opPPFilter j
   | "repr" => opRepr j
+  | "tokfmt" => opTokFmt j
+  | "format" => opFormat j
   | "ping" => Json.mkObj [("pong", Json.bool true)]
   | op => Json.mkObj [("error", Json.str s!"unknown op {op}")]
 
